@@ -4,3 +4,4 @@ import PopsModel.Model.Schedule
 import PopsModel.Model.DatePred
 import PopsModel.Props.C07
 import PopsModel.Props.C08
+import PopsModel.Props.C18
